@@ -54,13 +54,13 @@ def mutate(kind, v, rng):
     if kind == "data3d" and v[0] == 1:
         choices.append("links")
     if len(items) >= 2:
-        choices.append("reorder")
+        choices += ["reorder", "reorder"] + (["reorder"] if kind in ("emg", "platdata", "platcalib", "calib") else [])
     what = rng.choice(choices)
     if what == "reorder":
         # the same items in another order: jointly with their channels, items only, or channels only
         cm = {"emg": 3, "platdata": 3, "platcalib": 0, "calib": 5}.get(kind)
         i, j = sorted(rng.sample(range(len(items)), 2))
-        how = rng.choice(["jointly", "items", "channels"]) if cm is not None else "items"
+        how = rng.choice(["jointly", "jointly", "items", "channels"]) if cm is not None else "items"
         if rng.random() < 0.3:
             perm = list(range(1, len(items))) + [0]                # rotation instead of a transposition
         else:
